@@ -4,7 +4,7 @@ import ERP.Total
 
 `ERP/Gen/Arith.lean` is regenerated on every run from the statements of
 `AxisPosition.logicalToNative`, `.nativeToLogical`, `.setLogicalOffsetPosition`, `.setHomeOffset`,
-`ExcludeRegionState._exitCoordinate` and
+`ExcludeRegionState._exitCoordinate`, `RetractionState.combine` and
 `GcodeHandlers.computeArcCenterOffsets`, and of `GcodeHandlers.planArc` (everything before its loop, and
 the loop body) (assignments, augmented assignments, `if`/`else`, early
 `return`, conditional expressions, `and`/`or`/`^`, comparisons, `+ - * /`, `abs`, `math.sqrt`,
@@ -53,6 +53,19 @@ theorem gen_exitCoord (axis lastAxis : Axis α) :
   unfold T.exitCoord Gen.exitCoordinate
   cases axis.absoluteMode <;> rfl
 
+/-- `RetractionState.combine(other)`: the combined retraction length -/
+theorem gen_combine (r o : Retraction α) :
+    (T.combine r o).extrusionAmount.getD 0 =
+      Gen.combine r.allowCombine r.firmwareRetract o.firmwareRetract
+        (r.extrusionAmount.getD 0) (o.extrusionAmount.getD 0) := by
+  unfold T.combine Gen.combine
+  cases r.allowCombine <;> cases r.firmwareRetract <;> cases o.firmwareRetract <;> rfl
+
+theorem gen_combine_frame (r o : Retraction α) :
+    (T.combine r o).allowCombine = r.allowCombine ∧ (T.combine r o).firmwareRetract = r.firmwareRetract ∧
+    (T.combine r o).feedRate = r.feedRate ∧ (T.combine r o).recoverExcluded = r.recoverExcluded := by
+  unfold T.combine
+  split <;> exact ⟨rfl, rfl, rfl, rfl⟩
 /-- `computeArcCenterOffsets(endX, endY, radius, clockwise)` -/
 theorem gen_arcCenterOffsets (p : Position α) (endX endY radius : α) (cw : Bool) :
     T.computeArcCenterOffsets p endX endY radius cw =
